@@ -23,8 +23,9 @@ REG = dict(category="model_checking",
     "implementation traces (library-made proofs) verified and rewound by TLC",
     design_ref="DESIGN.md §4 C09")
 N = 0xFFFFFFFFFFFFFFFFFFFFFFFFFFFFFFFEBAAEDCE6AF48A03BBFD25E8CD0364141
-BRANCHES = {"min>value", "min_bits-range", "exp-range", "guard63", "min=max64", "exact", "mb-clamped+exp-reduced", "mb-clamped", "exp-disabled",
-            "exp-reduced", "mantissa=min_bits", "odd-mantissa", "even-mantissa"}
+# clamp branches inside the signer's domain: each must occur among the replayed parameter states (vacuity guard of the P model)
+BRANCHES = {"guard63", "min=max64", "exact", "mb-clamped+exp-reduced", "mb-clamped", "exp-disabled", "exp-reduced", "mantissa=min_bits", "odd-mantissa",
+            "even-mantissa"}
 
 def b32(x): return list(x.to_bytes(32, "big"))
 def u64(x): return list(x.to_bytes(8, "big"))
@@ -116,6 +117,18 @@ def driver(chk, n_small, n_big):
     sev_small = [{k: v for k, v in e.items() if k != "big"} for e in sev if not e["big"]]
     return cev + sev_small + chk.record(ver, "std")
 
+def replay(chk, path):
+    """re-execute the records of a violation file on the named build and let TLC decide them again"""
+    import vlib
+    recs = vlib.read_ndjson(path)
+    variant = recs[0].get("variant", "std") if recs and recs[0].get("e") == "Build" else "std"
+    recs = [r for r in recs if r.get("e") != "Build"]
+    chk.label_of = label
+    chk.groups = ["rangeproof"]
+    chk.build([variant])
+    chk.validate(chk.record(recs, variant), MODULE, TRACE[1], "replay", variant)
+    return chk.finish(LEVEL, "replay of " + path, [])
+
 def run(chk):
     quick = chk.tier == "quick"
     chk.label_of = label
@@ -126,6 +139,9 @@ def run(chk):
     precs = chk.generate(MODULE, "C09_params.cfg", "params", timeout=1200 if quick else 3000)
     seen = {r["in"]["br"] for r in precs}
     chk.notes.append("clamp branches among the replayed parameter states: " + ", ".join(sorted(seen)))
+    if BRANCHES - seen:
+        from vlib import Infra
+        raise Infra("parameter model is vacuous for clamp branches %s" % sorted(BRANCHES - seen))
     for v in variants:
         chk.replay(precs, v, "parameter derivation states")
     # G: sign records with predicted proof bytes and the soundness theorems evaluated by TLC
